@@ -8,7 +8,8 @@ def simCfg : Cfg :=
   { order := [.destroy, .stopScenarios, .stopBehaviors, .disableProxies, .endSimulation],
     merge := .keepOldest,
     stopClears := true,
-    agentsEarly := true }
+    agentsEarly := true,
+    destroyGuarded := false }
 /-- `DynamicScenario._stop` stops its sub-scenarios before it reverts its own overrides -/
 def subsStoppedBeforeRevert : Bool := true
 /-- `Simulation._createObject` registers the object and enables its proxy before calling the simulator -/
